@@ -302,11 +302,10 @@ class MappingStorage:
             self._transaction = transaction
             self._tdata = {}
             if tid is None:
-                if self._transactions:
-                    old_tid = self._transactions.maxKey()
-                else:
-                    old_tid = None
-                tid = ZODB.utils.newTid(old_tid)
+                # Later than the last id we have given out (not just than
+                # the newest transaction we still hold: a pack may have
+                # removed that one as garbage).
+                tid = ZODB.utils.newTid(self._ltid)
             self._tid = tid
 
     # ZODB.interfaces.IStorage
